@@ -31,6 +31,7 @@ type appPayload interface {
 type appCmd struct {
 	CID     byte
 	Payload appPayload
+	Extra   string // set by unmarshal when the library's command value differs from {CID, Payload} alone
 }
 
 // appPkg adapts one application-layer package.
@@ -72,6 +73,11 @@ var c18Pkgs = []appPkg{
 				if c.Payload != nil {
 					ac.Payload = c.Payload
 				}
+				// what the decoded command holds beyond its CID and payload (nothing, for a command as sent)
+				c.CID, c.Payload = 0, nil
+				if x := deepPrint(c); x != deepPrint(reflect.Zero(reflect.TypeOf(c)).Interface()) {
+					ac.Extra = x
+				}
 				out = append(out, ac)
 			}
 			return out, err
@@ -112,6 +118,11 @@ var c18Pkgs = []appPkg{
 				ac := appCmd{CID: byte(c.CID)}
 				if c.Payload != nil {
 					ac.Payload = c.Payload
+				}
+				// what the decoded command holds beyond its CID and payload (nothing, for a command as sent)
+				c.CID, c.Payload = 0, nil
+				if x := deepPrint(c); x != deepPrint(reflect.Zero(reflect.TypeOf(c)).Interface()) {
+					ac.Extra = x
 				}
 				out = append(out, ac)
 			}
@@ -159,6 +170,11 @@ var c18Pkgs = []appPkg{
 				if c.Payload != nil {
 					ac.Payload = c.Payload
 				}
+				// what the decoded command holds beyond its CID and payload (nothing, for a command as sent)
+				c.CID, c.Payload = 0, nil
+				if x := deepPrint(c); x != deepPrint(reflect.Zero(reflect.TypeOf(c)).Interface()) {
+					ac.Extra = x
+				}
 				out = append(out, ac)
 			}
 			return out, err
@@ -202,6 +218,11 @@ var c18Pkgs = []appPkg{
 				ac := appCmd{CID: byte(c.CID)}
 				if c.Payload != nil {
 					ac.Payload = c.Payload
+				}
+				// what the decoded command holds beyond its CID and payload (nothing, for a command as sent)
+				c.CID, c.Payload = 0, nil
+				if x := deepPrint(c); x != deepPrint(reflect.Zero(reflect.TypeOf(c)).Interface()) {
+					ac.Extra = x
 				}
 				out = append(out, ac)
 			}
@@ -748,6 +769,10 @@ func runC18(r *engine.Run) {
 			return
 		}
 		for i := range seq {
+			if back[i].Extra != "" {
+				c.Fail(fmt.Sprintf("%s/sequence-element-differs/%s/beyond-cid-and-payload", pkg.name, names[i]), fmt.Sprintf("sequence %v (%x): element %d decodes to a command that is not the one that was sent: apart from CID and payload it holds %s", names, b, i, back[i].Extra), nil)
+				return
+			}
 			if back[i].CID != seq[i].CID || deepPrint(back[i].Payload) != deepPrint(seq[i].Payload) {
 				c.Fail(fmt.Sprintf("%s/sequence-element-differs/%s", pkg.name, names[i]), fmt.Sprintf("sequence %v (%x): element %d decodes to %s, expected %s", names, b, i, deepPrint(back[i].Payload), deepPrint(seq[i].Payload)), nil)
 				return
